@@ -17,7 +17,7 @@ CFG_FULL = {
     "unreg": True, "setc": True, "funs": ("F1",), "knobs": ("K1",),
 }
 CFG_MIX = {
-    "values": (3,), "index_values": (0, 1), "templates": ("mul2", "add", "dbl", "total", "dyn", "abs2", "pair1", "cplx"),
+    "values": (3,), "index_values": (0, 1), "templates": ("mul2", "add", "dbl", "total", "dyn", "dynx", "abs2", "pair1", "cplx"),
     "iops": (("sub", ("lit", 1)),), "unreg": True, "setc": True, "funs": ("F1",), "knobs": ("K1",),
 }
 CFG_REDUCED = {"values": (3,), "templates": ("mul2", "inc"), "unreg": True}
@@ -38,9 +38,12 @@ CFG_DIAMOND = {"values": (), "templates": ("total", "add", "mul2"), "leaves": [m
 # special float values (zero, infinity) through products and sums: a definition holds for them as for any other value
 CFG_SPECIAL = {"values": (0.0, float("inf"), -2.5), "templates": ("mul", "add", "neg"), "leaves_n": 3}
 # the mixed world over a reduced alphabet (one template of each structural kind), one level deeper
-CFG_MIXR = {"values": (3,), "index_values": (1,), "templates": ("mul2", "total", "dyn", "pair1"), "unreg": True, "setc": True,
+CFG_MIXR = {"values": (3,), "index_values": (1,), "templates": ("mul2", "total", "dyn", "dynx", "pair1"), "unreg": True, "setc": True,
             "funs": ("F1",), "knobs": ("K1",), "sources_n": 3}
-ALPHABETS = {"mixr": CFG_MIXR, "special": CFG_SPECIAL, "diamond": CFG_DIAMOND, "full": CFG_FULL, "mix": CFG_MIX, "reduced": CFG_REDUCED, "reduced_t": CFG_REDUCED_T, "iopref": CFG_IOPREF, "knobs": CFG_KNOBS}
+# values chosen so that a plain assignment can COINCIDE with what the location already holds through its definition
+# (W-flat starts with a=1, b=2, c=4: b = 2*a holds 2, c = 2*b holds 4)
+CFG_COINCIDE = {"values": (2, 4, 8), "templates": ("mul2",), "unreg": True, "leaves_n": 3}
+ALPHABETS = {"coincide": CFG_COINCIDE, "mixr": CFG_MIXR, "special": CFG_SPECIAL, "diamond": CFG_DIAMOND, "full": CFG_FULL, "mix": CFG_MIX, "reduced": CFG_REDUCED, "reduced_t": CFG_REDUCED_T, "iopref": CFG_IOPREF, "knobs": CFG_KNOBS}
 
 
 def alphabet_for(world, name):
@@ -64,12 +67,12 @@ def plan(tier, seed):
     seeds = common.seeds_for(tier, seed, thorough=(0, 1, 2, 3))
     jobs = []
     if tier == "quick":
-        runs = [("W-nest", "full", 2), ("W-nest-4", "reduced", 4), ("W-mix", "mix", 2), ("W-flat", "iopref", 4), ("W-knobs", "knobs", 4), ("W-nest", "diamond", 4), ("W-flat", "special", 3)]
+        runs = [("W-nest", "full", 2), ("W-nest-4", "reduced", 4), ("W-mix", "mix", 2), ("W-flat", "iopref", 4), ("W-knobs", "knobs", 4), ("W-nest", "diamond", 4), ("W-flat", "special", 3), ("W-flat", "coincide", 4)]
         fam_sizes, fam_big = (1, 10, 100, 900, 1100), (3000,)
     else:
         runs = [("W-nest", "full", 3), ("W-nest-small", "reduced_t", 3), ("W-nest-small", "reduced", 4),
                 ("W-mix", "mix", 2), ("W-mix", "mixr", 3), ("W-flat", "iopref", 5), ("W-nest-4", "iopref", 4), ("W-knobs", "knobs", 5),
-                ("W-nest", "diamond", 5), ("W-flat", "special", 4)]
+                ("W-nest", "diamond", 5), ("W-flat", "special", 4), ("W-flat", "coincide", 5)]
         fam_sizes, fam_big = (1, 10, 100, 900, 1100, 3000), (20000,)
     for hs in seeds:
         for wname, alpha, depth in runs:
